@@ -256,11 +256,15 @@ def _map_to_station_ids(
                 elif res < sim.sim_h3_search_resolution:
                     search_geoids = tuple(h3.h3_to_children(k, sim.sim_h3_search_resolution))
 
+                # a region finer than the search grid is looked up through its enclosing search cell:
+                # keep only the stations that lie inside the named region itself
                 station_ids = (
                     station_id
                     for search_geoid in search_geoids
                     if sim.s_search.get(search_geoid)
                     for station_id in sim.s_search[search_geoid]
+                    if res <= sim.sim_h3_search_resolution
+                    or h3.h3_to_parent(sim.stations[station_id].geoid, res) == k
                 )
 
                 # all of these station ids should get entries managers the provided geoid
